@@ -345,8 +345,12 @@ def opSpecV3 (debug : Bool) (bs : Bytes) : String :=
   | some (p, t) => s!"accept {t} {p.show}"
   | none =>
     match Spec.decodeV3Loose bs with
-    | some _ => model
-    | none => "reject"
+    | some (p, t) =>
+      -- soundness up to non-minimal integers: what the model accepts here must be what the tolerant grammar says
+      if model.startsWith "accept" && model != s!"accept {t} {p.show}" then s!"DISAGREE model={model} loose=accept {t} {p.show}" else model
+    | none =>
+      -- (K1: the grammar accepts but the packet type cannot represent it → both sides reject)
+      if model.startsWith "accept" then s!"DISAGREE model accepts what the tolerant grammar rejects: {model}" else "reject"
 
 def opSpecV5 (debug : Bool) (bs : Bytes) : String :=
   let model := match (Poll.spec (V5.pollFamily debug) bs .eof).1 with
@@ -357,8 +361,12 @@ def opSpecV5 (debug : Bool) (bs : Bytes) : String :=
   | some (p, t) => s!"accept {t} {p.show}"
   | none =>
     match Spec.decodeV5Loose bs with
-    | some _ => model
-    | none => "reject"
+    | some (p, t) =>
+      -- soundness up to non-minimal integers: what the model accepts here must be what the tolerant grammar says
+      if model.startsWith "accept" && model != s!"accept {t} {p.show}" then s!"DISAGREE model={model} loose=accept {t} {p.show}" else model
+    | none =>
+      -- (K1: the grammar accepts but the packet type cannot represent it → both sides reject)
+      if model.startsWith "accept" then s!"DISAGREE model accepts what the tolerant grammar rejects: {model}" else "reject"
 
 def withHex (h : String) (f : Bytes → String) : String :=
   match bytesOfHex h with
